@@ -15,6 +15,7 @@ import (
 	"strconv"
 	"strings"
 	"testing"
+	"time"
 
 	"github.com/imroc/req/v3/internal/verifh"
 )
@@ -77,12 +78,13 @@ func TestVerif_C17_e2e(t *testing.T) {
 		clientCT, reqCT := "", ""
 		switch r.Intn(6) {
 		case 0:
-			clientCT = verifh.Pick(r, []string{"application/json", "text/xml", "text/plain", "application/soap+xml"})
+			clientCT = verifh.Pick(r, []string{"application/json", "text/xml", "text/plain", "application/soap+xml", "application/vnd.api+json; charset=utf-8", "Text/XML"})
 			c.SetCommonContentType(clientCT)
 		case 1:
-			reqCT = verifh.Pick(r, []string{"application/json", "application/xml", "text/plain"})
+			reqCT = verifh.Pick(r, []string{"application/json", "application/xml", "text/plain", "application/XML", "application/atom+xml; charset=utf-8"})
 			req.SetContentType(reqCT)
 		}
+		exoticField := "" // "" | "ctl" | "empty": a multipart field name outside the plain class
 		genOrdered := func(maxPairs int, mp bool) {
 			np := 1 + r.Intn(maxPairs)
 			for j := 0; j < np; j++ {
@@ -91,7 +93,17 @@ func TestVerif_C17_e2e(t *testing.T) {
 					k = verifh.Pick(r, []string{"dup", "a b", "ключ"})
 				}
 				if mp && (k == "" || c17HasUnsafe(k)) {
-					k = "k" + strconv.Itoa(j)
+					// multipart field names: any bytes are carried (quoted like file names); kept in
+					// 1/3 of the draws (their own class of finding on an unpatched tree), an empty
+					// name (refused) in 1/3 of the empty draws
+					switch {
+					case k == "" && r.Intn(3) == 0 && exoticField == "":
+						exoticField = "empty"
+					case k != "" && r.Intn(3) == 0 && exoticField != "empty":
+						exoticField = "ctl"
+					default:
+						k = "k" + strconv.Itoa(j)
+					}
 				}
 				ordArgs = append(ordArgs, k, v)
 				pairs = append(pairs, [2]string{k, v})
@@ -110,6 +122,10 @@ func TestVerif_C17_e2e(t *testing.T) {
 			if mp {
 				fix := func(m *c17KV) {
 					for j, k := range m.keys {
+						if k != "" && c17HasUnsafe(k) && exoticField != "empty" && len(pairs) == 0 && r.Intn(3) == 0 {
+							exoticField = "ctl"
+							continue
+						}
 						if k == "" || c17HasUnsafe(k) {
 							m.keys[j] = "mk" + strconv.Itoa(j) + strings.Map(func(c rune) rune {
 								if c < 0x20 || c == 0x7f {
@@ -127,8 +143,8 @@ func TestVerif_C17_e2e(t *testing.T) {
 					seen := map[string]bool{}
 					var out c17KV
 					for j, k := range m.keys {
-						if !seen[k] {
-							seen[k] = true
+						if !seen[c17Arrives(k)] {
+							seen[c17Arrives(k)] = true
 							out.keys = append(out.keys, k)
 							out.vals = append(out.vals, m.vals[j])
 						}
@@ -143,6 +159,17 @@ func TestVerif_C17_e2e(t *testing.T) {
 			if len(cl.keys) > 0 {
 				c.SetCommonFormDataFromValues(cl.values())
 			}
+		}
+		// this case's requests only: a request that broke off (a streamed body whose writer refused a
+		// field) may be recorded by the origin after the case that sent it has moved on
+		cid := "cid=" + strconv.Itoa(i)
+		takeMine := func() (mine []c17Seen) {
+			for _, sn := range o.take() {
+				if sn.Query == cid {
+					mine = append(mine, sn)
+				}
+			}
+			return
 		}
 		class := ""
 		setClass := func(cls string) {
@@ -170,8 +197,8 @@ func TestVerif_C17_e2e(t *testing.T) {
 				setClass("c17-plain-and-ordered")
 			}
 			req.Method = method
-			resp, err := req.Send(method, o.base+"/f")
-			seen := o.take()
+			resp, err := req.Send(method, o.base+"/f"+"?"+cid)
+			seen := takeMine()
 			line = "c17forme2e " + rq.line() + " " + cl.line() + " " + verifh.HexList(ordArgs)
 			// supplied multimap: ordered pairs first, then request values, then client values
 			want := map[string][]string{}
@@ -233,6 +260,14 @@ func TestVerif_C17_e2e(t *testing.T) {
 			if len(cl.keys) > 0 {
 				setClass("c17-client-form-multipart")
 			}
+			switch exoticField {
+			case "ctl":
+				class = "c17-field-name-ctl"
+				s.Count("multipart-ctl-field-name")
+			case "empty":
+				class = "c17-field-name-empty"
+				s.Count("multipart-empty-field-name")
+			}
 			nf := r.Intn(5)
 			if nf == 0 {
 				req.EnableForceMultipart()
@@ -260,12 +295,14 @@ func TestVerif_C17_e2e(t *testing.T) {
 				req.EnableForceChunkedEncoding()
 				s.Count("forced-chunked")
 			}
-			resp, err := req.Send(method, o.base+"/m")
-			seen := o.take()
+			resp, err := req.Send(method, o.base+"/m"+"?"+cid)
+			seen := takeMine()
 			// the model's field list: ordered pairs, then the merged map sorted by key
 			merged := c17KV{}
 			mm := c17Merged(rq, cl)
-			for _, k := range c17SortedKeys(mm) {
+			mkeys := c17SortedKeys(mm)
+			sort.SliceStable(mkeys, func(a, b int) bool { return c17Arrives(mkeys[a]) < c17Arrives(mkeys[b]) })
+			for _, k := range mkeys {
 				merged.keys = append(merged.keys, k)
 				merged.vals = append(merged.vals, mm[k])
 			}
@@ -275,7 +312,24 @@ func TestVerif_C17_e2e(t *testing.T) {
 					fields = append(fields, [2]string{k, v})
 				}
 			}
-			if err != nil || resp.StatusCode != 200 || len(seen) != 1 {
+			if exoticField == "empty" {
+				// a field without a name cannot be represented: the call fails, nothing is sent
+				line = "c17mpe2e " + verifh.Hex("X") + " " + c17FlatPairs(fields) + " " + c17FilesLine(files)
+				// buffered: nothing is sent; streamed: the request may have started, but the origin must
+				// not get a body it can read to its end
+				impl, ok = "err", err != nil
+				if err != nil && !chunked {
+					time.Sleep(2 * time.Millisecond)
+				}
+				for _, sn := range seen {
+					if !chunked || sn.BodyErr == nil {
+						ok = false
+					}
+				}
+				if err == nil {
+					impl = "sent"
+				}
+			} else if err != nil || resp.StatusCode != 200 || len(seen) != 1 {
 				impl, ok = "err", false
 				line = "c17mpe2e " + verifh.Hex("X") + " " + c17FlatPairs(fields) + " " + c17FilesLine(files)
 			} else {
@@ -302,7 +356,7 @@ func TestVerif_C17_e2e(t *testing.T) {
 				if ok {
 					for j, fl := range fields {
 						it := items[j]
-						if it.file || it.name != fl[0] || it.value != fl[1] {
+						if it.file || it.name != c17Arrives(fl[0]) || it.value != fl[1] {
 							ok = false
 						}
 					}
@@ -378,8 +432,8 @@ func TestVerif_C17_e2e(t *testing.T) {
 			case "files":
 				req.SetFileBytes("f", "n.txt", []byte("data"))
 			}
-			resp, err := req.Send(method, o.base+"/b")
-			seen := o.take()
+			resp, err := req.Send(method, o.base+"/b"+"?"+cid)
+			seen := takeMine()
 			js, jerr := json.Marshal(marshalVal)
 			xs, xerr := xml.Marshal(marshalVal)
 			sniffed := ""
@@ -407,7 +461,11 @@ func TestVerif_C17_e2e(t *testing.T) {
 			if effCT == "" {
 				effCT = clientCT
 			}
-			marshalFails := marshalSet && !forbid && ((strings.Contains(effCT, "xml") && xerr != nil) || (!strings.Contains(effCT, "xml") && jerr != nil))
+			isXML := strings.Contains(strings.ToLower(effCT), "xml")
+			if marshalSet && !forbid && c17XMLOnlyByCase(reqCT, clientCT) {
+				class = "c17-xml-type-case"
+			}
+			marshalFails := marshalSet && !forbid && ((isXML && xerr != nil) || (!isXML && jerr != nil))
 			if marshalFails {
 				// the marshaller refuses the value: the call must fail and nothing may be sent
 				impl, ok = "err", err != nil && len(seen) == 0
@@ -430,7 +488,7 @@ func TestVerif_C17_e2e(t *testing.T) {
 				case forbid:
 					s.Count("forbidden-" + method)
 					ok = len(got.Body) == 0 && got.CL <= 0 && len(got.TE) == 0 && got.Method == method
-				case marshalSet && strings.Contains(eff, "xml"):
+				case marshalSet && strings.Contains(strings.ToLower(eff), "xml"):
 					s.Count("marshal-xml")
 					ok = xerr == nil && bytes.Equal(got.Body, xs) && gct == eff
 					if d, isDoc := marshalVal.(*c17Doc); ok && isDoc {
